@@ -370,7 +370,9 @@ def partial_guarded(facts, b, gs, c, blk):
             vs = pat.promoted_variants(facts, s[1]) + pat.promoted_variants(facts, s[2])
             if any(v[1] == "Partial" for v in vs) and (c.dominates(nz, blk) or nz == blk):
                 return True
-    return False
+    # any other spelling of the mode test: not reached in a concrete walk with the mode set to a non-Partial variant
+    from rules import C13 as _c13
+    return _c13.mode_guarded(facts, b, Terms(b), c, blk)
 
 
 def option_some_after_loop(b, tm, blocks):
